@@ -101,7 +101,22 @@ def i_av_store(ex, fr, ins, name, args, st, k):
 
 @assumed('runtime.SetFinalizer', 'runtime.SetFinalizer(obj, f) arranges for f(obj) to run some time after obj becomes unreachable (GC behaviour is not modelled)')
 def i_setfinalizer(ex, fr, ins, name, args, st, k):
-    st.trace.append(('finalizer', args[0], args[1]))
+    # args are interface{}-boxed: (obj, func)
+    obj, fn = args[0], args[1]
+    fname = ''
+    objaddr = None
+    for tname, (ctor, accs, rec) in ex.ts.boxes.items():
+        pass
+    # recover the boxed pointer and the closure name syntactically
+    t0 = obj.x
+    if z3.is_app(t0) and t0.num_args() == 1:
+        objaddr = t0.arg(0)
+    t1 = fn.x
+    if z3.is_app(t1) and t1.num_args() == 1:
+        clo = getattr(ex, 'clos', {}).get(str(t1.arg(0)))
+        if clo is not None:
+            fname = clo.fn.rsplit('.', 1)[-1]
+    st.trace.append(('finalizer', obj, fn, fname, objaddr))
     k(st, None)
 
 
